@@ -102,6 +102,7 @@ def save_fault_point(k: int, dest_exists: bool) -> bool:
                 p.stop()
         wrote = [m for p, m in fs.opens[opens_before:] if p == DEST and ("w" in m or "a" in m or "+" in m)]
         if inj.fired:
+            hold("fault", DEST not in fs.writes, "destination created/truncated although serialisation failed")
             hold("fault", raised is not None, "save returned although serialisation failed")
             hold("fault", not wrote, "destination opened for writing although serialisation failed")
             hold("fault", fs.files.get(DEST) == (OLD if dest_exists else None),
@@ -174,4 +175,38 @@ def save_natural_faults(case: int, dest_exists: bool) -> bool:
             hold("fault", raised is not None, lambda: "save succeeded in case %s" % name)
             hold("fault", not wrote, "destination opened for writing although serialisation failed")
             hold("fault", fs.files.get(DEST) == (OLD if dest_exists else None), "destination bytes changed")
+    return True
+
+
+@obligation(prop="C19", sites=("rt",), encodes=["cincoconfig.core.Config.save", "cincoconfig.core.Config.load"],
+            stubs=("FakeFS",), budget={"quick": 200, "thorough": 400},
+            what="a file written by save() loads back equal through load() for documents of EVERY length residue: a "
+                 "string value padded to n characters, n symbolic in 0..255 (the codecs run concretely, untraced), "
+                 "the two binary formats bson and pickle (they start with length / opcode bytes that may "
+                 "look like white space)")
+def save_load_every_length(n: int, fi: int) -> bool:
+    """
+    pre: 0 <= n <= 255 and 0 <= fi <= 1
+    post: _
+    """
+    from vf.hlib.stubs import untraced
+    fmt = "bson" if fi == 0 else "pickle"
+    pad = "x" * n     # (the engine realises n here: one path per length)
+    fs = FakeFS(files={KEYPATH: KEY}, dirs=["/k", "/cfg"])
+    with fs.patched():
+        with untraced():
+            schema = Schema()
+            schema.text = StringField(default="")
+            schema.flag = IntField(default=1)
+            cfg = schema()
+            cfg.text = pad
+            cfg.save(DEST, format=fmt)
+            fresh = schema()
+            try:
+                fresh.load(DEST, format=fmt)
+                err = None
+            except Exception as exc:  # noqa: BLE001
+                err = exc
+            same = err is None and plain(fresh) == plain(cfg)
+        hold("rt", same, lambda: "%s document of a %d-character value does not load back: %r" % (fmt, len(pad), err))
     return True
